@@ -1,4 +1,5 @@
 """C19 — cumsum writes exactly the selected partial sums for every length (DESIGN.md §7 C19)."""
+from vcommon import pure
 import os
 
 os.environ['NUMBA_BOUNDSCHECK'] = '1'   # must precede the first numba import in this process
@@ -232,7 +233,7 @@ def run(ctx):
     ctx.count('corpus', len(corpus))
     outs = ctx.driver.query([model_line(c) for c in cases])
     for c, mres in zip(cases, outs):
-        check_case(ctx, c, mres, cumsum, cumsum.py_func)
+        check_case(ctx, c, mres, cumsum, pure(cumsum))
     ctx.exhaustive = True
     ctx.extra['scope'] = 'N in 0..%d, all flag pairs, outLen in expected-1..expected+1' % ctx.pick(8, 16)
 
@@ -266,7 +267,7 @@ def intensify(ctx):
         cases.append(dict(kind=kind, N=N, ini=ini, fin=fin, outLen=outLen, off=off, vals=vals))
     outs = ctx.driver.query([model_line(c) for c in cases]) if not ctx.driver.error else ['err oob'] * len(cases)
     for c, mres in zip(cases, outs):
-        check_case(ctx, c, mres, cumsum, cumsum.py_func)
+        check_case(ctx, c, mres, cumsum, pure(cumsum))
 
 
 def replay(ctx, doc):
@@ -274,4 +275,4 @@ def replay(ctx, doc):
     c = doc['failure']['case'] if 'failure' in doc else doc
     mres = ctx.driver.query([model_line(c)])[0]
     print('model:', mres)
-    check_case(ctx, c, mres, cumsum, cumsum.py_func)
+    check_case(ctx, c, mres, cumsum, pure(cumsum))
